@@ -6,7 +6,7 @@ from vlib.core import Case
 PROP = "C03"
 SPEC_MODE = "spec"
 KEEP_PREFIX = 2            # `clock T0` and `load …` are never removed by the shrinker
-SIZES = {"quick": 500, "thorough": 12000}
+SIZES = {"quick": 1500, "thorough": 40000}
 BATCH = 1000
 RULE = ("one `load` of 1-4 circuit-breaking rules (all three strategies, 1-3 breakers on the main resource, sometimes a second "
         "resource; bucket counts {0,1,2,5,10}, statistic intervals that do / do not divide, ProbeNum in {0,1,2,3}, MinRequestAmount "
